@@ -111,6 +111,9 @@ def a_sound(a, res, ctx):
                     out.append("harness: unknown static type text %r" % static)
                 elif kind != sk and not (kind == "nil" and (opt or True)):
                     out.append("kind: static type `%s` but the run-time value is a %s (%s)" % (static, kind, lines[i + 2][:60]))
+            elif i + 2 < len(lines) and lines[i + 1].startswith("str:") and lines[i + 2].strip() == "" and lines[i + 1][4:] != "void":
+                # the typed print writes `kind:text` for every value: an empty line means the expression produced NO value
+                out.append("no-value: static type `%s` but the expression produced no value at run time" % lines[i + 1][4:])
             i += 3
         else:
             i += 1
